@@ -145,17 +145,35 @@ namespace sqf::runtime
             iterator_base(confighost& confighost, size_t config_index) :
                 m_confighost(confighost),
                 m_index(0),
-                m_id(config_index) {}
+                m_id(config_index)
+            {
+                settle();
+            }
 
             iterator_base<recursive>& operator++()
+            {
+                if (m_id != config::invalid_id)
+                {
+                    m_index++;
+                    settle();
+                }
+                return *this;
+            }
+        private:
+            // Moves on to the first position, starting with the current one, that holds an entry:
+            // a `delete` marker holds none and a class may have no entries at all.
+            void settle()
             {
                 while (m_id != config::invalid_id)
                 {
                     auto& container = m_confighost.m_containers[m_id];
-                    if ((container.size() - 1) > m_index)
+                    if (m_index < container.size())
                     {
+                        if (container[m_index] != config::invalid_id)
+                        {
+                            return;
+                        }
                         m_index++;
-                        return *this;
                     }
                     else
                     {
@@ -170,8 +188,8 @@ namespace sqf::runtime
                         }
                     }
                 }
-                return *this;
             }
+        public:
             iterator_base<recursive> operator++(int) { iterator retval = *this; ++(*this); return retval; }
             bool operator==(iterator_base<recursive> other) const { return m_id == other.m_id; }
             bool operator!=(iterator_base<recursive> other) const { return !(*this == other); }
